@@ -239,13 +239,14 @@ def hasReg : Str → Bool
   | [] => false
   | c :: r => regAt (c :: r) || hasReg r
 
-/-- `REGISTERED_RE.replace_all(s, " ")`. -/
-def replaceReg (s : Str) : Str :=
-  match s with
-  | [] => []
-  | c :: r => if regAt (c :: r) then ' ' :: replaceReg (r.drop 2) else c :: replaceReg r
-termination_by s.length
-decreasing_by all_goals (simp only [List.length_cons, List.length_drop]; omega)
+/-- `REGISTERED_RE.replace_all(s, " ")`: leftmost non-overlapping matches; `skip` = characters of
+    the current match still to be dropped. -/
+def replaceRegGo : Nat → Str → Str
+  | _, [] => []
+  | k + 1, _ :: r => replaceRegGo k r
+  | 0, c :: r => if regAt (c :: r) then ' ' :: replaceRegGo 2 r else c :: replaceRegGo 0 r
+
+def replaceReg (s : Str) : Str := replaceRegGo 0 s
 
 /-- `EXTRA_SPACE_RE.replace_all(s, " ")`: every run of two or more spaces becomes one space. -/
 def collapseSpaces : Str → Str
